@@ -70,7 +70,8 @@ def amen_frame(ob, which, d, guess):
 
 
 @scenario('C11', 'amen.entry', ['torchtt._amen.amen_mv', 'torchtt._amen.amen_mm', 'torchtt._amen._amen_mm_python'],
-          quick=[dict(which=w, d=2, guess=g) for w in ('amen_mv', 'amen_mm') for g in (False, True)], replay=None, max_paths=2000)
+          quick=[dict(which=w, d=2, guess=g) for w in ('amen_mv', 'amen_mm') for g in (False, True)],
+          thorough=[dict(which=w, d=d_, guess=g) for w in ('amen_mv', 'amen_mm') for d_ in (2, 3) for g in (False, True)], replay=None, max_paths=2000)
 def amen_entry(ob, which, d, guess):
     """caller / callee contracts along the path from the public entry point to the first local product:
        * amen_mv / amen_mm hand the operands' OWN cores to the sweep routine (amen_mm: the two core lists element by element, amen_mv: A's
